@@ -155,9 +155,13 @@ class AVR:
                 r[d] = (r[d] & ~(1 << b)) | (T << b)
             elif mn in ('ld', 'ldd'):
                 a = ptr(ops[1], src)
+                if 0x0400 <= a <= sp:
+                    raise Violation('access-below-stack-pointer', '%s touches 0x%x while SP = 0x%x' % (src, a, sp))
                 r[self.reg(ops[0])] = mem.load(a, 1, src)
             elif mn in ('st', 'std'):
                 a = ptr(ops[0], src)
+                if 0x0400 <= a <= sp:
+                    raise Violation('access-below-stack-pointer', '%s touches 0x%x while SP = 0x%x' % (src, a, sp))
                 mem.store(a, 1, r[self.reg(ops[1])], src)
             elif mn == 'push':
                 mem.store(sp, 1, r[self.reg(ops[0])], src)
